@@ -235,6 +235,10 @@ class Ctx:
             self.record(case, res)
         return results
 
+    def add_fail(self, case, signature, message):
+        """Failure of a cross-case oracle (decided in run() after the cases were evaluated)."""
+        self.fails.append((case, Fail(signature, message)))
+
     def _redo_budget(self, fails):
         """Re-run the first two failing cases of every signature (not hundreds of identical ones)."""
         if not hasattr(self, "_redone"):
